@@ -1,0 +1,14 @@
+//go:build verif
+
+package pugjs
+
+// VerifHook is only compiled in with the build tag "verif" (verification harness).
+// If set, it is called at the named yield points of template loading and rendering,
+// so that a harness can park goroutines there and enumerate interleavings deterministically.
+var VerifHook func(point string)
+
+func verifYield(point string) {
+	if h := VerifHook; h != nil {
+		h(point)
+	}
+}
